@@ -1,8 +1,13 @@
 #!/venv/bin/python
-"""Prints the detection matrix (markdown) from /verif/seeded/*/meta.json."""
+"""Prints the detection matrix (markdown) from /verif/seeded/*/meta.json.
+
+  tools/matrix.py            full table
+  tools/matrix.py --summary  per-property counts only
+"""
 import glob
 import json
 import os
+import sys
 
 rows = []
 for d in sorted(glob.glob("/verif/seeded/*")):
@@ -14,11 +19,24 @@ for d in sorted(glob.glob("/verif/seeded/*")):
     runs = v.get("checks_run", {})
     caught = v.get("caught_by", [])
     missed = sorted(c for c in runs if c not in caught)
-    rows.append((os.path.basename(d), (m.get("summary") or "")[:110].replace("|", "/").replace("\n", " "),
-                 ", ".join(caught) or "—", ", ".join(missed) or ""))
-print("| seeded change | what it does | reported by | run but silent |")
+    rows.append((os.path.basename(d), m.get("property"), (m.get("summary") or "")[:110].replace("|", "/").replace("\n", " "),
+                 caught, missed))
+
+per = {}
+for sid, prop, summ, caught, missed in rows:
+    p = per.setdefault(prop, [0, 0, 0])
+    p[0] += 1
+    p[1] += 1 if caught else 0
+    p[2] += 1 if prop in caught else 0
+
+if "--summary" not in sys.argv:
+    print("| seeded change | what it does | reported by | run but silent |")
+    print("|---|---|---|---|")
+    for sid, prop, summ, caught, missed in rows:
+        print("| `%s` | %s | %s | %s |" % (sid, summ, ", ".join(caught) or "—", ", ".join(missed)))
+    print()
+print("| property | seeded changes | reported by some check | reported by the property's own check |")
 print("|---|---|---|---|")
-for r in rows:
-    print("| `%s` | %s | %s | %s |" % r)
-print()
-print("%d seeded changes, %d reported by at least one check" % (len(rows), sum(1 for r in rows if r[2] != "—")))
+for prop in sorted(per):
+    print("| %s | %d | %d | %d |" % ((prop,) + tuple(per[prop])))
+print("| all | %d | %d | %d |" % (len(rows), sum(1 for r in rows if r[3]), sum(1 for r in rows if r[1] in r[3])))
